@@ -27,7 +27,8 @@ try:
     m = None
     for ln in readme.splitlines():
         if ("gcc " in ln or " cc " in (" " + ln) or "clang " in ln or "demo.sh" in ln or "python3 " in ln) and "demo" in ln:
-            m = ln.strip()
+            mm = re.search(r"((?:[A-Za-z_]+=\S+\s+)*(?:gcc|cc|clang|sh|bash|python3)\s.*)$", ln.strip())
+            m = mm.group(1) if mm else ln.strip()
             break
     if m is None:
         raise SystemExit("no build line in README")
